@@ -131,6 +131,11 @@ def run(R):
     R.require_min("C18.TOTAL", 20)
     diag_robust(R, allm, "C18.TOTAL")
     common.typed_stack_elements(R, ro, "C18.TOTAL")
+    link_recursion(R, ro, "C18.STACK-LIST")
+    no_user_comparison(R, allm, "C18.TOTAL")
+    # dump methods: what they format goes through the containing converters, and user hooks (get_priority) are contained
+    from .c20 import diag_conversions
+    diag_conversions(R, ro, "C18.TOTAL")
     ng = reentrancy_guards(R, allm, "C18.TOTAL")
     R.need(ng >= 1, "idiom: no recursion-guarded text method found (FutureBase.__repr__ had one)")
     # a future refuses to be tested for truth (TypeError from the truth slot in the compiled build): `x or "none"` in a text method
@@ -816,3 +821,94 @@ def diag_robust(R, allm, rule):
                         "%s.%s formats `%s %% %s` with a bare value: when that value is a tuple it is unpacked as the argument list (TypeError for 0 or 2+ elements, "
                         "wrong text for 1)" % (m.cls.name, m.name, q.src(node.left)[:30], q.src(r)))
     return n
+
+
+def link_recursion(R, ro, rule):
+    """A diagnostic method that calls itself on an object reached through a field of self (self.creator.traceback()) recurses
+    once per link.  The chains asynq builds - creators, awaiting tasks - are far longer than the interpreter can recurse (the
+    scheduler itself is iterative for that reason), and compiled to C the recursion has no depth check at all: it ends in
+    RecursionError or a crash instead of the list.  Such a walk is a loop, or carries an explicit depth limit (the dump methods:
+    checked by C20.DUMP-BOUNDED)."""
+    n = 0
+    for cls in (ro.AsyncTask, ro.FutureBase, ro.BatchBase, ro.BatchItemBase):
+        for name, m in sorted(cls.methods.items()):
+            params = q.param_names(m.node)
+            for c in q.calls(m.node):
+                recv, attr = q.attr_call(c)
+                if attr != name or recv is None:
+                    continue
+                rs = q.dotted(recv) or ""
+                over_deps = any(isinstance(a, ast.For) and q.src(a.target) == rs and "_dependencies" in q.src(a.iter) for a in q.ancestors(c))
+                if not (rs.startswith("self.") or over_deps):
+                    continue        # (a base-class implementation called on the same object, an object of another kind)
+                n += 1
+                limited = False
+                if len(params) > 1:
+                    # depth parameter compared against a module constant before the recursive call, which passes it on increased
+                    ind = params[1]
+                    limited = any(isinstance(t, ast.If) and ind in q.names_loaded(t.test) and any(isinstance(x, ast.Return) for x in t.body) for t in m.node.body) \
+                        and any(ind in q.names_loaded(a) for a in c.args)
+                R.check(limited, rule, "%s:%s" % (m.qualname, q.src(c)[:40]), R.site(m, c),
+                        "the walk over linked objects in %s is depth-limited" % m.name,
+                        "%s calls itself on `%s`: one recursion level per linked object. A chain of tasks is legal far beyond the recursion limit "
+                        "(and the compiled method recurses in C without any check): format_asynq_stack() in a deep chain ends in RecursionError or "
+                        "a crash instead of listing the tasks" % (m.qualname, rs))
+    # the walk over creators exists and is a loop
+    tb = ro.AsyncTask.methods.get("traceback")
+    R.need(tb is not None, "anchor vanished: AsyncTask.traceback")
+    # the line of a task is built from its frame's source, which need not exist (exec'd / generated code: code_context is None ->
+    # TypeError; a frame that is gone): whatever goes wrong there, the entry falls back to the task's safe str()
+    from ..cfg import ExcHierarchy
+    hier_ = ExcHierarchy(R.repo)
+    lines = [c for c in q.calls(tb.node) if q.attr_call(c)[1] == "_traceback_line"]
+    for c in lines:
+        cov = any(kit.handler_covers(h, "Exception", hier_) and not kit.handler_reraises(h) for t in kit.enclosing_try_handlers(c) for h in t.handlers)
+        R.check(cov, rule, tb.qualname + ":line-fallback", R.site(tb, c),
+                "a failure of _traceback_line() of any Exception class falls back to the task's safe str()",
+                "only some exception classes of _traceback_line() are turned into the fallback entry: for a task whose function has no retrievable source "
+                "(exec/compile, generated code) inspect yields no source text and the TypeError escapes from format_asynq_stack()")
+    R.check(bool(lines), rule, tb.qualname + ":lines", R.site(tb), "traceback() builds its entries with _traceback_line()", "traceback() no longer calls _traceback_line()")
+    loops = [w for w in ast.walk(tb.node) if isinstance(w, (ast.While, ast.For))]
+    rec = [c for c in q.calls(tb.node) if q.attr_call(c)[1] == "traceback" and q.attr_call(c)[0] is not None and q.src(q.attr_call(c)[0]) != "self"]
+    R.check(bool(loops) or bool(rec), rule, tb.qualname + ":walks-creators", R.site(tb),
+            "traceback() visits the creating tasks (%s)" % ("in a loop" if loops else "recursively"),
+            "traceback() neither loops nor recurses over the creating tasks: only the innermost task is listed")
+
+
+def no_user_comparison(R, allm, rule):
+    """A diagnostic method looks at the value / error a future holds only through identity tests and the containing converters:
+    `==`, `<`, `in` on it run the user's __eq__/__lt__/__contains__ - an own-type-only __eq__ raises AttributeError for a future,
+    an element-wise one (numpy) returns an array whose truth value raises - and str()/repr() of the future raises with it."""
+    from ..cfg import ExcHierarchy
+    hier = ExcHierarchy(R.repo)
+    n = 0
+
+    def user_value(f, e, depth=0):
+        if depth > 3:
+            return False
+        s_ = q.src(e)
+        if s_ in ("self._value", "self._error", "self.value()", "self.error()", "self._last_value"):
+            return True
+        if isinstance(e, ast.Name):
+            vals = common.assigned_values(f.node, e.id)
+            return any(k == "expr" and user_value(f, v, depth + 1) for k, v in vals)
+        return False
+    for f in sorted(allm.values(), key=lambda x: x.qualname):
+        for node in q.scope_nodes(f.node):
+            if not isinstance(node, ast.Compare):
+                continue
+            ops = [o for o in node.ops if not isinstance(o, (ast.Is, ast.IsNot))]
+            if not ops:
+                continue
+            operands = [node.left] + list(node.comparators)
+            if not any(user_value(f, o) for o in operands):
+                continue
+            n += 1
+            prot = any(kit.handler_covers(h, "Exception", hier) and not kit.handler_reraises(h) for t in kit.enclosing_try_handlers(node) for h in t.handlers)
+            R.check(prot, rule, "%s:compare:%s" % (f.qualname, q.src(node)[:40]), R.site(f, node),
+                    "the comparison `%s` is contained" % q.src(node)[:40],
+                    "%s compares the stored value with `%s`: that runs the value's own %s (a user type whose __eq__ only knows its own kind raises "
+                    "AttributeError, an element-wise one returns something whose truth value raises) - str()/repr()/dump of the future raises; an identity "
+                    "test (`is`) does not" % (f.qualname, q.src(node)[:50], "__eq__" if isinstance(ops[0], (ast.Eq, ast.NotEq)) else "comparison method"))
+    if not n:
+        R.ok(rule, "asynq/", "no diagnostic method compares a stored value or error by ==, <, in")
